@@ -279,3 +279,44 @@ pub fn hazard_clean_text(max_words: usize, max_word_len: usize) -> BoxedStrategy
     .prop_map(|w| w.join(" "))
     .boxed()
 }
+
+/// texts whose byte length sits at or next to a power of two (256 ... 65536), the sizes at which
+/// chunked or blocked implementations cut: `unit` repeated cluster by cluster up to the target,
+/// padded with 'a', followed by `tail`; or two letters around a whitespace run of that size
+pub fn sized_text(unit: BoxedStrategy<String>, graphemes: bool) -> BoxedStrategy<String> {
+    (
+        unit,
+        select(vec![256usize, 256, 1024, 1024, 4096, 4096, 4096, 4096, 8192, 8192, 8192, 65536]),
+        -3i64..=3,
+        prop_oneof![select(WS_FRAGS).prop_map(str::to_string), Just(String::new()), Just("x".to_string()), Just(" y".to_string())],
+        0u8..3,
+    )
+        .prop_map(move |(unit, l, d, tail, shape)| {
+            let target = (l as i64 + d) as usize;
+            if shape == 0 {
+                // a long whitespace run between two words
+                let w = if unit.chars().all(char::is_whitespace) && !unit.is_empty() { unit.clone() } else { " ".to_string() };
+                let mut s = String::from("a");
+                while s.len() < target {
+                    s.push_str(&w);
+                }
+                s.push('b');
+                return s;
+            }
+            let cl: Vec<&str> = clusters(&unit, graphemes);
+            let mut s = String::new();
+            if !cl.is_empty() {
+                let mut i = 0;
+                while s.len() + cl[i % cl.len()].len() <= target && i < 200_000 {
+                    s.push_str(cl[i % cl.len()]);
+                    i += 1;
+                }
+            }
+            while s.len() < target {
+                s.push('a');
+            }
+            s.push_str(&tail);
+            s
+        })
+        .boxed()
+}
